@@ -231,6 +231,18 @@ class _StmtSynonyms(ast.NodeTransformer):
         self.generic_visit(n)
         return n
 
+    def visit_Assign(self, n):
+        # q, r = divmod(a, b)  ->  q = a // b; r = a % b     (a and b plain names / constants / paths)
+        if len(n.targets) == 1 and isinstance(n.targets[0], ast.Tuple) and len(n.targets[0].elts) == 2 and all(isinstance(t, ast.Name) for t in n.targets[0].elts) \
+                and isinstance(n.value, ast.Call) and isinstance(n.value.func, ast.Name) and n.value.func.id == "divmod" and len(n.value.args) == 2 and not n.value.keywords \
+                and all(isinstance(a, (ast.Name, ast.Constant, ast.Attribute)) for a in n.value.args):
+            a, b = n.value.args
+            q, r = n.targets[0].elts
+            if q.id not in (U(a), U(b)) and r.id not in (U(a), U(b)):
+                return [ast.copy_location(ast.Assign(targets=[ast.Name(id=q.id, ctx=ast.Store())], value=ast.BinOp(left=copy.deepcopy(a), op=ast.FloorDiv(), right=copy.deepcopy(b)), lineno=n.lineno), n),
+                        ast.copy_location(ast.Assign(targets=[ast.Name(id=r.id, ctx=ast.Store())], value=ast.BinOp(left=copy.deepcopy(a), op=ast.Mod(), right=copy.deepcopy(b)), lineno=n.lineno), n)]
+        return n
+
     def visit_Expr(self, n):
         c = n.value
         if isinstance(c, ast.Call) and isinstance(c.func, ast.Name) and c.func.id == "setattr" and len(c.args) == 3 and not c.keywords \
